@@ -70,6 +70,14 @@ def run(ctx, res):
         jobs.append(('map', Map, U.rand_bytes(rng, 0x1000)))
         jobs.append(('sfx', Sfx, U.rand_bytes(rng, 0x1100)))
         jobs.append(('music', Music, U.rand_bytes(rng, 0x100)))
+    # low-entropy regions and regions whose records begin the way the previous one ended
+    for _ in range(ctx.budget(6, 40)):
+        for st in ('motif', 'echo'):
+            jobs.append(('gfx', Gfx, U.rand_bytes(rng, 0x2000, st)))
+            jobs.append(('map', Map, U.rand_bytes(rng, 0x1000, st)))
+            jobs.append(('gff', Gff, U.rand_bytes(rng, 0x100, st)))
+            jobs.append(('sfx', Sfx, U.rand_bytes(rng, 0x1100, st)))
+            jobs.append(('music', Music, U.rand_bytes(rng, 0x100, st)))
     # record-structured regions: every row/pattern is independently untouched (PICO-8's default, picotool's own empty default,
     # all zero), sparse, or random — carts mostly consist of untouched records
     for _ in range(ctx.budget(6, 60)):
